@@ -307,7 +307,13 @@ def run_batch(pid: str, tier: str, seed: int) -> int:
     wall_s = time.time() - t0
     missing_probes = [p for p in getattr(mod, "REQUIRED_PROBES", []) if probes.get(p, 0) == 0]
     if missing_probes and n >= getattr(mod, "PROBE_MIN_RUNS", 200):
-        harness_errors.append(f"required probes never hit: {missing_probes}")
+        # a stuck probe means the workload no longer reaches a branch we care about; on the developer's
+        # self-test (VERIF_STRICT_PROBES=1) that is an error, in normal use it is reported, not fatal
+        msg = f"required probes never hit: {missing_probes}"
+        if os.environ.get("VERIF_STRICT_PROBES") == "1":
+            harness_errors.append(msg)
+        else:
+            print(f"PROBE-WARNING: {msg}", file=sys.stderr)
 
     coverage = {
         "evaluations": n,
@@ -329,6 +335,7 @@ def run_batch(pid: str, tier: str, seed: int) -> int:
         "stub_components": getattr(mod, "STUB", []),
         "known_findings_hit": [list(s) for s, _ in known_hit],
         "budget_requested": total,
+        "required_probes_missing": missing_probes,
         "exhaustive": bool(getattr(mod, "EXHAUSTIVE", False)),
     }
     if hasattr(mod, "extra_coverage"):
